@@ -899,7 +899,7 @@ func main() {
 		}
 	}
 	fmt.Fprintf(&o.b, "/-- scope.go: defaultScopeBuckets in nanoseconds -/\ndef defaultScopeBuckets : List String := %s\n\n", leanStrList(defb))
-	o.strs("scopeCloseOps", syncOps(findFunc(tally, "scope", "Close"), map[string]bool{"reportRegistry": true, "Close": true, "purge": true}), "(*scope).Close")
+	o.strs("scopeCloseOps", syncOps(findFunc(tally, "scope", "Close"), map[string]bool{"reportRegistry": true, "Close": true, "purge": true, "Report": true, "CachedReport": true, "Flush": true}), "(*scope).Close")
 	o.strs("reportLoopRunOps", syncOps(findFunc(tally, "scope", "reportLoopRun"), map[string]bool{"reportRegistry": true}), "(*scope).reportLoopRun")
 	o.strs("reportRegistryOps", syncOps(findFunc(tally, "scope", "reportRegistry"), map[string]bool{"Report": true, "CachedReport": true, "Flush": true}), "(*scope).reportRegistry")
 	o.strs("fullyQualifiedNameReturns", append(guards(findFunc(tally, "scope", "fullyQualifiedName")), returnsIn(findFunc(tally, "scope", "fullyQualifiedName"))...), "(*scope).fullyQualifiedName")
